@@ -10,6 +10,6 @@ done
 cd /repo
 for d in $(git status --porcelain | awk '{print $2}' | grep 'zz_verif_' | xargs -n1 dirname | sort -u); do
   git add "$d"/zz_verif_*.go
-  git commit -q -m "verif: contracts for $d (build tag verif, comment/lemma only)" -- "$d"
+  git commit -q -m "verif: contracts for $d (build tag verif, comment/lemma only)" -- "$d"/zz_verif_*.go
   echo "committed $d"
 done
